@@ -59,9 +59,16 @@ def apply_impl(fn_path: str, cases, procs: int = 16):
     if len(cases) < 200:
         return _apply_chunk((fn_path, cases))
     chunks = chunk_list(cases, procs * 4)
+    import gc
+
     ctx = mp.get_context("fork")
-    with ctx.Pool(procs) as pool:
-        parts = pool.map(_apply_chunk, [(fn_path, ch) for ch in chunks])
+    gc.collect()
+    gc.freeze()
+    try:
+        with ctx.Pool(procs) as pool:
+            parts = pool.map(_apply_chunk, [(fn_path, ch) for ch in chunks])
+    finally:
+        gc.unfreeze()
     return [c for p in parts for c in p]
 
 
